@@ -363,7 +363,12 @@ def wide_arr(r, lens):
     wdt = r.choice(["i8", "u8"])
     base = r.choice([2 ** 53, 2 ** 60, 2 ** 62, 5]) if wdt == "i8" else r.choice([2 ** 53, 2 ** 63, 2 ** 64 - 40, 7])
     sign = -1 if wdt == "i8" and r.random() < 0.3 else 1
-    return [wdt, [[limbs(sign * (base + r.randint(0, 9))) for _ in range(l)] for l in lens]]
+    ext = [-2 ** 63, 2 ** 63 - 1] if wdt == "i8" else [2 ** 64 - 1, 2 ** 63]
+
+    def cell():
+        c = r.random()          # large values next to small ones and to the extremes of the dtype (sums that do not fit are unspec)
+        return sign * (base + r.randint(0, 9)) if c < 0.55 else (r.randint(-9, 9) if wdt == "i8" else r.randint(0, 9)) if c < 0.85 else r.choice(ext)
+    return [wdt, [[limbs(cell()) for _ in range(l)] for l in lens]]
 
 
 def gen_c07(r):
@@ -446,10 +451,7 @@ def gen_c09(r):
     name = r.choice(["colsum", "colsum", "colmean", "colcounts", "colvalues"])
     if r.random() < 0.12 and sum(lens):
         from .enc import limbs
-        wdt = r.choice(["i8", "u8"])
-        base = r.choice([2 ** 53, 2 ** 60, 2 ** 62, 5]) if wdt == "i8" else r.choice([2 ** 53, 2 ** 63, 2 ** 64 - 40, 7])
-        sign = -1 if wdt == "i8" and r.random() < 0.3 else 1
-        arr = [wdt, [[limbs(sign * (base + r.randint(0, 9))) for _ in range(l)] for l in lens]]
+        arr = wide_arr(r, lens)
         o = opts_for(r, "col")
         o["hi"] = 0
         return ["col", "wcolsum", arr, 0], o, False
